@@ -1,13 +1,17 @@
 (* What is demanded of the text written by -E (independent of how the printer works).
 
-   The text is read again by translation phase 3 (C11 5.1.1.2p1: "the source file is decomposed into
-   preprocessing tokens and sequences of white-space characters").  It is a faithful rendering of
+   The text is read again by translation phases 1-3 (C11 5.1.1.2p1).  It is a faithful rendering of
    the preprocessing-token sequence the compiler proper consumes when
-     (1) phase 3 decomposes it into exactly these preprocessing tokens - same kinds, same spellings,
-         same number, same order (so that phases 5-7 see the same program), and
+     (1) phase 3 ("the source file is decomposed into preprocessing tokens and sequences of
+         white-space characters") decomposes it into exactly these preprocessing tokens - same kinds,
+         same spellings, same number, same order (so that phases 5-7 see the same program),
      (2) no token of it is taken for the beginning of a preprocessing directive: by C11 6.10p2 a
          directive begins with a `#` that is the first token of a line, while a `#` that is still
-         present after macro replacement is not one (6.10.3.4p3).
+         present after macro replacement is not one (6.10.3.4p3), and
+     (3) phases 1 and 2 leave the text as it is, so that phase 3 really sees these bytes: phase 2
+         deletes every backslash immediately followed by a new-line; phase 1 is implementation-defined,
+         and the readers at hand (chibicc's tokenize_file, gcc, clang) drop a leading UTF-8 byte order
+         mark EF BB BF and turn CR and CR LF into LF.
    The tokenizer is a parameter: the statement is about any phase-3 function returning tokens with
    their kind, spelling and the beginning-of-line mark. *)
 From Coq Require Import List NArith Bool.
@@ -45,22 +49,35 @@ Definition begins_directive (t : tok) : bool :=
 
 Definition no_directive (l : list tok) : bool := forallb (fun t => negb (begins_directive t)) l.
 
+(* (3) *)
+Definition begins_with_bom (text : list N) : bool :=
+  match text with a :: b :: c :: _ => (a =? 239) && (b =? 187) && (c =? 191) | _ => false end.
+Fixpoint has_splice (text : list N) : bool :=
+  match text with
+  | [] => false
+  | c :: r => ((c =? 92) && match r with d :: _ => d =? 10 | [] => false end) || has_splice r
+  end.
+Definition has_cr (text : list N) : bool := existsb (fun c => c =? 13) text.
+Definition survives_phases_1_2 (text : list N) : bool :=
+  negb (begins_with_bom text) && negb (has_splice text) && negb (has_cr text).
+
 Section Spec.
 Variable phase3 : list N -> lexres.
 
 (* (1) *)
 Definition same_tokens (text : list N) (given : list pptoken) : Prop :=
   exists l, phase3 text = LexOk l /\ map pptoken_of l = given.
-(* (1) and (2) *)
+(* (1), (2) and (3) *)
 Definition faithful (text : list N) (given : list pptoken) : Prop :=
-  exists l, phase3 text = LexOk l /\ map pptoken_of l = given /\ no_directive l = true.
+  exists l, phase3 text = LexOk l /\ map pptoken_of l = given /\ no_directive l = true /\
+            survives_phases_1_2 text = true.
 
 (* the same, executable (used by the tie on the bytes the real compiler wrote) *)
 Definition same_tokens_b (text : list N) (given : list pptoken) : bool :=
   match phase3 text with LexOk l => pptokens_eqb (map pptoken_of l) given | LexErr => false end.
 Definition faithful_b (text : list N) (given : list pptoken) : bool :=
   match phase3 text with
-  | LexOk l => pptokens_eqb (map pptoken_of l) given && no_directive l
+  | LexOk l => pptokens_eqb (map pptoken_of l) given && no_directive l && survives_phases_1_2 text
   | LexErr => false
   end.
 End Spec.
